@@ -137,6 +137,11 @@ func VerifyJSON(signingName string, keyID KeyID, publicKey ed25519.PublicKey, me
 	if len(signature) != ed25519.SignatureSize {
 		return fmt.Errorf("Bad signature length from %q with ID %q", signingName, keyID)
 	}
+	// ed25519.Verify panics on a public key of any other length, and the key
+	// may come from the network (a key response, a third-party invite event).
+	if len(publicKey) != ed25519.PublicKeySize {
+		return fmt.Errorf("Bad public key length for %q with ID %q", signingName, keyID)
+	}
 
 	// The "unsigned" key and "signatures" keys aren't covered by the signature so remove them.
 	delete(object, "unsigned")
